@@ -57,6 +57,7 @@ func unitCmd(args []string) {
 	frame := fs.Bool("frame", true, "")
 	cover := fs.Bool("cover", false, "")
 	assertsOnly := fs.Bool("assertsonly", false, "")
+	groups := fs.String("groups", "", "clause groups to keep (comma separated labels)")
 	timeout := fs.Int("timeout", 10000, "ms per query")
 	dump := fs.Bool("dump", false, "print the script")
 	irc := fs.Bool("irc", false, "wire the ircserver command table (handler template contracts)")
@@ -64,6 +65,7 @@ func unitCmd(args []string) {
 	fs.Parse(args)
 	start := time.Now()
 	e, err := vc.Load("/repo", "/verif", strings.Split(*pkgs, ",")...)
+
 	if err != nil {
 		fmt.Fprintln(os.Stderr, "ENGINE-ERROR", err)
 		os.Exit(2)
@@ -77,7 +79,11 @@ func unitCmd(args []string) {
 	}
 	bad := 0
 	for _, name := range fs.Args() {
-		u, err := e.VerifyFunc(name, vc.UnitOpts{NoPanic: *nopanic, Post: *post, Frame: *frame, Cover: *cover, AssertsOnly: *assertsOnly})
+		var gs []string
+		if *groups != "" {
+			gs = strings.Split(*groups, ",")
+		}
+		u, err := e.VerifyFunc(name, vc.UnitOpts{NoPanic: *nopanic, Post: *post, Frame: *frame, Cover: *cover, AssertsOnly: *assertsOnly, Groups: gs})
 		if err != nil {
 			fmt.Println("ENGINE-ERROR", err)
 			bad++
